@@ -1668,6 +1668,11 @@ def _len(ip, args, kwargs, node, fr):
         ip.assume(r >= 0)
         x = z3.Const(ip.fresh_name('x'), ek.sort())
         ip.assume((r == 0) == z3.Not(z3.Exists([x], z3.Select(dom, x))))
+        # a set of at most one element has no two different members (the only other cardinality fact the code relies on:
+        # `if len(candidates) > 1`)
+        y = z3.Const(ip.fresh_name('y'), ek.sort())
+        ip.assume(z3.ForAll([x, y], z3.Implies(z3.And(r <= 1, z3.Select(dom, x), z3.Select(dom, y)), x == y),
+                            patterns=[z3.MultiPattern(z3.Select(dom, x), z3.Select(dom, y))]))
         return VInt(r)
     if isinstance(v, (VInt, VBool, VFloat)) or (isinstance(v, VConst) and (v.py is None or isinstance(v.py, (int, float)))):
         raise PyRaise(VExc('TypeError'), node)
@@ -2900,7 +2905,34 @@ def comprehension(ip, e, fr, kind):
             return VTuple(out)
         return tuple_to_list(VTuple(out)) if out else VList(None, z3.IntVal(0), None)
     if is_dict:
-        raise EngineError('dict comprehension over a symbolic source')
+        # {k(x): v(x) for x in <symbolic list>} : domain = the keys that occur; a key occurring several times keeps the
+        # value of its LAST occurrence (witness function `last`)
+        if g.ifs or not isinstance(src, VList) or 'enum_of' in src.ghost:
+            raise EngineError('dict comprehension over this symbolic source')
+        if src.ek is None:
+            return VDict(None, None, None, None)
+        n = src.n
+        J = z3.Int(ip.fresh_name('cj'))
+        elem = src.ek.wrap(z3.Select(src.arr, J), None)
+        with QuantScope(ip, [J >= 0, J < n]) as scope:
+            ip.assign(g.target, elem, sub)
+            kv = resolve(ip, ip.eval(e.key, sub))
+            vv = resolve(ip, ip.eval(e.value, sub))
+            kk, vk = kind_of(kv), kind_of(vv)
+            kt, vt = kk.unwrap(kv), vk.unwrap(vv)
+        comprehension_outcome(ip, scope, J, z3.And(J >= 0, J < n), e)
+        d = KDict(kk, vk).fresh(ip, 'dcomp')
+        last = z3.Function(ip.fresh_name('last'), kk.sort(), z3.IntSort())
+        kx = z3.Const(ip.fresh_name('k'), kk.sort())
+        at = lambda term, t: z3.substitute(term, (J, t))
+        ip.assume(z3.ForAll([J], z3.Implies(z3.And(0 <= J, J < n), z3.And(z3.Select(d.dom, kt), J <= last(kt))),
+                            patterns=[z3.Select(src.arr, J)]))
+        ip.assume(z3.ForAll([kx], z3.Implies(z3.Select(d.dom, kx),
+                                             z3.And(0 <= last(kx), last(kx) < n, at(kt, last(kx)) == kx,
+                                                    z3.Select(d.map, kx) == at(vt, last(kx)))),
+                            patterns=[z3.Select(d.dom, kx)]))
+        d.ghost = getattr(d, 'ghost', {})
+        return d
     if isinstance(src, VDictItems) and src.what == 'values':
         raise EngineError('comprehension over dict values')
     if isinstance(src, (VRange,)) or (isinstance(src, VList) and 'enum_of' not in src.ghost):
